@@ -15,6 +15,7 @@ type Violation struct {
 	Msg   string
 	Model map[string]*big.Int
 	Path  []int64
+	Sched []int64
 }
 
 type Explorer struct {
@@ -58,6 +59,7 @@ type PathCtx struct {
 	vars      []*Term
 	varSeq    map[string]int
 	nAsserts  int
+	sched     []int64 // scheduling choices (explored-mode threads), for native replay
 	curFrame  *frame
 	hashApps  []hashApp
 }
@@ -190,6 +192,7 @@ func (c *PathCtx) Choose(n int) int {
 		v := c.prefix[c.pos]
 		c.pos++
 		c.decisions = append(c.decisions, v)
+		c.sched = append(c.sched, v)
 		return int(v)
 	}
 	c.pos++
@@ -198,6 +201,7 @@ func (c *PathCtx) Choose(n int) int {
 		c.ex.q.push(alt)
 	}
 	c.decisions = append(c.decisions, 0)
+	c.sched = append(c.sched, 0)
 	return 0
 }
 
@@ -228,7 +232,7 @@ func (c *PathCtx) Assert(cond *Term, msg string) {
 	if r == "sat" {
 		m := s.Model(c.vars)
 		s.Pop()
-		c.ex.Viol = append(c.ex.Viol, Violation{Msg: msg, Model: m, Path: append([]int64{}, c.decisions...)})
+		c.ex.Viol = append(c.ex.Viol, Violation{Msg: msg, Model: m, Path: append([]int64{}, c.decisions...), Sched: append([]int64{}, c.sched...)})
 		c.add(cond)
 		if cond.IsFalse() {
 			panic(abortPath{"assert always false"})
